@@ -890,10 +890,11 @@ func seedState(a map[string]string, names [3]string, qtype uint16, cd bool) {
 		case "q":
 			m := new(dns.Msg)
 			m.SetQuestion(names[p], qtype)
+			m.Question[0].Qclass = uint16(atoiD(a["qc"], 1))
 			m.CheckingDisabled = cd
 			cache.VerifC05RecordFailure(live.Cache, m)
 		case "z":
-			cache.VerifC05RecordZoneFailure(live.Cache, dns.Question{Name: names[p], Qtype: qtype, Qclass: dns.ClassINET}, zone)
+			cache.VerifC05RecordZoneFailure(live.Cache, dns.Question{Name: names[p], Qtype: qtype, Qclass: uint16(atoiD(a["qc"], 1))}, zone)
 		}
 	}
 }
